@@ -37,7 +37,7 @@ type CartSpec struct {
 	File     string `json:"file,omitempty"`     // kind file: path of a ROM relative to /repo/gameboy/testdata
 	Missing  bool   `json:"missing,omitempty"`  // the file does not exist
 	FillSeed uint64 `json:"fill_seed,omitempty"`
-	Handler  string `json:"handler,omitempty"` // hex (at most 8 bytes) placed at every interrupt vector instead of NOP;RETI
+	Handler  string `json:"handler,omitempty"`  // hex (at most 8 bytes) placed at every interrupt vector instead of NOP;RETI
 	Program2 string `json:"program2,omitempty"` // hex, placed at the window address of Entry in page Page2
 	Page2    int    `json:"page2,omitempty"`
 	// HandlerTag: every byte A5 of Handler is replaced by the low byte of the vector it is placed at
